@@ -128,7 +128,11 @@ def signature(func, variadic=True, markup=True, safe=False):
        #explicit = tuple(arg_names[:-len(arg_defaults)]) # only return args
 
     # for a partial, the first p_args are now at fixed values
-    _fixed = dict(zip(arg_names[:len(p_args)],p_args))
+    # (a bound method's instance is not one of the parameters they fill)
+    if inspect.ismethod(func) and func.__self__ is not None:
+        _fixed = dict(zip(arg_names[1:len(p_args)+1],p_args))
+    else:
+        _fixed = dict(zip(arg_names[:len(p_args)],p_args))
 
     # deal with the stupid case that the partial always fails
     errors = [i for i in _fixed if i in p_kwds]
